@@ -88,7 +88,7 @@ func (x *c11) effects(c *ctx, kp *world.KeyPool) {
 					ref := refState{ids: []int64{id}, upd: d.curUpd.Commitment(code), rec: d.curRec.Commitment(code)}
 					t := uint64(1000)
 					oid++
-					h := &world.History{Level: 0}
+					h := &world.History{Level: 1}
 					h.Pub = append(h.Pub, world.Placed{Op: wrapOp(operation.TypeCreate, creq, d.suffix, id, 0, 0, 1, nil, ref.upd, ref.rec, code, "create"),
 						OID: oid, Time: t, Num: 1, CRef: oid, PVer: t})
 					exact := true // the direct oracle states the intended state only for in-window scripts
